@@ -21,13 +21,19 @@ theorem digitVal10_not_alpha (c : Char) (d : Nat) (h : digitVal 10 c = some d) :
   have eA : 'A'.toNat = 65 := rfl
   have eZ : 'Z'.toNat = 90 := rfl
   simp only [e0, e9, ea, ez, eA, eZ] at h
+  have huni : ∀ n, n < 170 → uniAlpha n = false := by
+    intro n hn
+    simp only [uniAlpha, uniAlphaRanges, List.any_cons, List.any_nil, Bool.or_false,
+      Bool.or_eq_false_iff, Bool.and_eq_false_iff, decide_eq_false_iff_not]
+    omega
   simp only [isAlphabetic, Char.isAlpha, Char.isUpper, Char.isLower, Bool.or_eq_false_iff,
     Bool.and_eq_false_iff, decide_eq_false_iff_not, UInt32.le_iff_toNat_le]
   have hv : c.val.toNat = c.toNat := rfl
   simp only [hv]
-  change (¬ (65 ≤ c.toNat ∧ c.toNat ≤ 90)) ∧ (¬ (97 ≤ c.toNat) ∨ ¬ (c.toNat ≤ 122))
+  change ((¬ (65 ≤ c.toNat ∧ c.toNat ≤ 90)) ∧ (¬ (97 ≤ c.toNat) ∨ ¬ (c.toNat ≤ 122))) ∧
+    uniAlpha c.toNat = false
   by_cases h1 : 48 ≤ c.toNat ∧ c.toNat ≤ 57
-  · omega
+  · exact ⟨by omega, huni _ (by omega)⟩
   · by_cases h2 : 97 ≤ c.toNat ∧ c.toNat ≤ 122
     · simp [h1, h2] at h; omega
     · by_cases h3 : 65 ≤ c.toNat ∧ c.toNat ≤ 90
